@@ -8,10 +8,10 @@ ID = 'C16'
 DOMAIN = 'gin/stmts'
 PROPS_FILES = ['Gin/Props/C16.lean']
 ANCHOR_FILES = ['config.py', 'config_parser.py', 'utils.py']
-RULE = ('a valid config of 2-10 statements (flat bindings, blocks, macros, imports, includes nested up to depth 2 in real '
+RULE = ('a valid config of 2-10 statements (flat bindings, blocks, macros, imports - among them a module that registers a configurable the text then configures -, includes nested up to depth 2 in real '
         'temporary files) over 2-3 registered probes; one fault injected at a uniformly chosen statement position of the '
         'whole include tree, of a kind drawn from {bad value, missing value, unbalanced bracket, bad selector, missing "=", '
-        'unknown parameter, unknown configurable, unknown reference, denylisted parameter, missing include, missing import, '
+        'unknown parameter, unknown configurable, unknown reference, denylisted parameter, missing include, missing import, an import whose module registers a taken name, '
         'bad block member, a well-formed block whose k-th member cannot be applied, an ambiguous name as binding target or block header, tokenizer error at the first token, inconsistent dedent}; after the failed call the store, '
         'provenance, recorded imports, lock flag and active scope are observed, a second (valid) text is parsed, and the '
         'flattened prefix is parsed in a fresh interpreter for comparison. non-trivial = the fault is not at the first '
@@ -27,7 +27,28 @@ EXPLANATION = ('Lean theorems about applyStmts (failure stops the loop; the stat
 
 FAULTS = S.SYNTAX_FAULTS + ['unknown_param', 'unknown_cfg', 'unknown_ref', 'denylisted', 'bad_include', 'bad_import',
                             'bad_block_member', 'tok_error_first', 'bad_dedent', 'block_member_fails',
-                            'block_member_fails', 'ambiguous_cfg']
+                            'block_member_fails', 'ambiguous_cfg', 'import_clash']
+
+_FAULT_REGMODS = {}   # modules written for an injected fault (reset per generated case)
+
+
+def late_reg(rng, obj=90):
+  late = dict(G.gen_late_register(rng, obj), cls=False)
+  for plist in (late['sig']['pos'], late['sig']['kwonly']):
+    for p in plist:
+      if p[1] is None:
+        p[1] = {'v': None}
+  return late
+
+
+def collect_regmods(specs, out=None):
+  out = {} if out is None else out
+  for sp in specs:
+    if sp[0] == 'regimport':
+      out[sp[1]] = [sp[2]]
+    elif sp[0] == 'include':
+      collect_regmods(sp[2], out)
+  return out
 
 
 def gen_specs(rng, regs, depth, counter):
@@ -47,7 +68,15 @@ def gen_specs(rng, regs, depth, counter):
     elif r < 0.72:
       specs.append(('macro', rng.choice(['m1', 'm2', 'a/b']), G.gen_value(rng, 1)))
     elif r < 0.82:
-      specs.append(('import', rng.choice(S.KNOWN_MODULES)))
+      if len(counter) == 1 and rng.random() < 0.4:
+        # a module that registers a configurable when imported: later statements of the text may configure it
+        counter.append(late_reg(rng))
+        specs.append(('regimport', 'ginverif_regmod_%d' % rng.randint(0, 3), counter[1]))
+        lcls = [n for n, k in G.param_classes(counter[1]).items() if k == 'valid']
+        if lcls and rng.random() < 0.7:
+          specs.append(('bind', scope, counter[1]['_selector'], rng.choice(lcls), G.gen_value(rng, 1)))
+      else:
+        specs.append(('import', rng.choice(S.KNOWN_MODULES)))
     elif depth < 2:
       counter[0] += 1
       name = f'inc{counter[0]}.gin'
@@ -151,6 +180,15 @@ def render(rng, specs, regs, fault, files, flat):
           b.add(amb[0] + '.x = 1', {'k': 'bind', 'scope': '', 'sel': amb[0], 'arg': 'x', 'val': 1})
         else:
           S.add_block(b, '', amb[0], [('x', 1)])
+      elif kind == 'import_clash':
+        # the imported module registers a different object under a name that is taken: the import statement fails
+        # with a located ValueError and nothing of it stays
+        tgt = rng.choice(regs)
+        clash = dict(late_reg(rng, 95), name=tgt['name'], module=tgt['module'], _explicit_module=tgt['module'],
+                     _name_arg=tgt['name'], _pymodule=tgt['module'], _selector=tgt['_selector'], _pyname='clash95',
+                     _api='external')
+        _FAULT_REGMODS['ginverif_regmod_clash'] = [clash]
+        b.add('import ginverif_regmod_clash', {'k': 'import', 'module': 'ginverif_regmod_clash', 'found': True, 'regs': [clash]})
       elif kind == 'tok_error_first':
         b.add(rng.choice(["'abc", '"unterminated', '$$$ = 1', '?']), {'k': 'syntax'})
       elif kind == 'bad_dedent':
@@ -168,6 +206,9 @@ def render(rng, specs, regs, fault, files, flat):
       flat.append(sp)
     elif sp[0] == 'block':
       S.add_block(b, sp[1], sp[2], sp[3])
+      flat.append(sp)
+    elif sp[0] == 'regimport':
+      b.add('import ' + sp[1], {'k': 'import', 'module': sp[1], 'found': True, 'regs': [sp[2]]})
       flat.append(sp)
     elif sp[0] == 'import':
       b.add('import ' + sp[1], {'k': 'import', 'module': sp[1], 'found': True})
@@ -192,7 +233,7 @@ def flat_text(flat):
       S.add_binding(b, '', sp[1], '', sp[2])
     elif sp[0] == 'block':
       S.add_block(b, sp[1], sp[2], sp[3])
-    elif sp[0] == 'import':
+    elif sp[0] in ('import', 'regimport'):
       b.add('import ' + sp[1], {})
   return b.text()
 
@@ -205,9 +246,12 @@ def gen_case(rng):
   kind = rng.choice(FAULTS)
   fault = [rng.randint(0, npos - 1), kind, False] if rng.random() < 0.92 else None
   files, flat = {}, []
+  _FAULT_REGMODS.clear()
   text, stmts, hit = render(rng, specs, regs, fault, files, flat)
   top_as_file = rng.random() < 0.4
-  parse = {'op': 'parse', 'file': None, 'skip': {'k': 'no'}, 'stmts': stmts, '_text': text, '_files': files}
+  regmods = dict(collect_regmods(specs), **_FAULT_REGMODS)
+  parse = {'op': 'parse', 'file': None, 'skip': {'k': 'no'}, 'stmts': stmts, '_text': text, '_files': files,
+           '_regmods': regmods}
   if top_as_file:
     files = dict(files)
     files['top.gin'] = text
@@ -220,12 +264,13 @@ def gen_case(rng):
     S.add_binding(b2, 'z', reg0['_selector'], cls0[0], rng.randint(0, 9))
     ops += [{'op': 'parse', 'file': None, 'skip': {'k': 'no'}, 'stmts': b2.stmts, '_text': b2.text(), '_files': {}},
             {'op': 'config'}, {'op': 'prov'}]
+  ops.append({'op': 'registry'})   # what imported modules registered before the fault stays registered
   extra = None
   if fault is not None and len(fault) > 3:
     extra = fault[3]
   return {'dom': 'gin', 'ops': ops, '_flat_text': flat_text(flat), '_fault': fault[1] if (fault and fault[2]) else None,
           '_fault_pos': None if fault is None else fault[0], '_nregs': len(regs),
-          '_block_prefix': extra}
+          '_block_prefix': extra, '_regmods': regmods}
 
 
 def gen_located_case(rng):
@@ -255,8 +300,9 @@ def run_impl(case):
   # fresh interpreter: the registrations, then the flattened prefix
   regs = [o for o in case['ops'] if o['op'] == 'register']
   fresh = gindom.run_impl({'dom': 'gin', 'ops': regs + [
-      {'op': 'parse', 'file': None, 'skip': {'k': 'no'}, 'stmts': [], '_text': case.get('_flat_text', ''), '_files': {}},
-      {'op': 'config'}, {'op': 'imports'}]})
+      {'op': 'parse', 'file': None, 'skip': {'k': 'no'}, 'stmts': [], '_text': case.get('_flat_text', ''), '_files': {},
+       '_regmods': case.get('_regmods')},
+      {'op': 'config'}, {'op': 'imports'}, {'op': 'registry'}]})
   out['fresh'] = fresh['out'][len(regs):]
   return out
 
@@ -286,6 +332,10 @@ def oracle(case, impl):
             f'(fault {case["_fault"]})')
   if imports != fr[2]:
     return f'recorded imports after the failed parse {imports}; the prefix alone records {fr[2]}'
+  if case['ops'][-1]['op'] == 'registry' and len(fr) > 3 and impl['out'][-1] != fr[3]:
+    return f'registered after the failed parse: {impl["out"][-1]}; the prefix alone registers {fr[3]}'
+  if case['_fault'] == 'import_clash' and res.get('err') != 'ValueError':
+    return f'an import whose module registers a taken name surfaced as {res.get("err")}'
   if locked != {'ok': False} or scope != {'ok': []}:
     return f'lock/scope not as before the call: locked {locked} scope {scope}'
   if case['_fault'] in ('unknown_param', 'unknown_cfg', 'unknown_ref', 'denylisted') and res.get('err') not in ('ValueError',):
